@@ -45,12 +45,12 @@ type History struct {
 	W   *L1World
 	Ops []HOp
 	// ground truth per session (filled while executing)
-	loginAt   map[int]int // session -> op index at which its login was delivered
+	loginAt    map[int]int // session -> op index at which its login was delivered
 	loginIdent map[int]string
-	evAt      map[string]int // "s.e" -> op index of delivery
-	evTime    map[string]time.Time
-	loginTime map[int]time.Time
-	axisIsOps bool
+	evAt       map[string]int // "s.e" -> op index of delivery
+	evTime     map[string]time.Time
+	loginTime  map[int]time.Time
+	axisIsOps  bool
 }
 
 func (h *History) Render() []string {
@@ -62,13 +62,13 @@ func (h *History) Render() []string {
 }
 
 type histCfg struct {
-	MaxSessions  int
-	MaxActions   int
-	Noise        bool // uncorrelated traffic: no-ses, unset-ses, orphan sessions, cron sessions, logins without session
-	Cleanup      bool // cleanup(now-60s) calls at random positions (inside the window)
-	AfterEnd     bool // stray events after CRED_DISP
-	SplitSweep   int  // >=0: systematic login position for session 0
-	MaxTotalMs   int
+	MaxSessions int
+	MaxActions  int
+	Noise       bool // uncorrelated traffic: no-ses, unset-ses, orphan sessions, cron sessions, logins without session
+	Cleanup     bool // cleanup(now-60s) calls at random positions (inside the window)
+	AfterEnd    bool // stray events after CRED_DISP
+	SplitSweep  int  // >=0: systematic login position for session 0
+	MaxTotalMs  int
 }
 
 // mergeOrder interleaves the sessions' event lists (per-session order preserved).
